@@ -23,7 +23,7 @@ Your task: make ONE realistic change to the project's source (under src/) that B
   3. the breakage needs something specific to manifest — a particular interleaving, a crash or fault at a particular point, a multi-step sequence of operations, an unusual input, or two cooperating sites that each look fine alone — NOT something ordinary use would expose at once,
   4. it looks like a plausible developer mistake or "optimisation"/refactor (e.g. a dropped step, a reordered pair of operations, a wrong branch classification, a narrowed lock scope, a check moved, an off-by-one in an index remap, a comparison changed), not sabotage with random noise. Keep it small (typically 1-30 changed lines).
 
-Then write a demonstration: a new integration test file `tests/zz_seeded_{pid.lower()}{variant}.rs` (or a small program) that FAILS with your change and PASSES on the unchanged code (verify both: `git stash` your src change, run the demo, `git stash pop`, run again). The demonstration may construct the specific situation directly (e.g. build the post-crash on-disk state by hand, call internal-but-public APIs, use several threads with barriers).
+Then write a demonstration: a new integration test file `tests/zz_seeded_{pid.lower()}{variant}.rs` (or a small program) that FAILS with your change and PASSES on the unchanged code (verify both: revert your src change with `git apply -R`, run the demo, re-apply it, run again). The demonstration may construct the specific situation directly (e.g. build the post-crash on-disk state by hand, call internal-but-public APIs, use several threads with barriers).
 
 Deliverables, in a new directory {wt}-out/ :
   - patch.diff : `git diff -- src` of your source change only (must apply with `git apply` to a clean checkout of the same commit),
